@@ -179,6 +179,53 @@ impl<'a> Oracle<'a> {
             }
         }
         let mut out: Vec<Exp> = vec![];
+        let backend = self.case().backend;
+        if backend == Backend::Concatenated {
+            // jiff reads header, index and data with separate positional
+            // reads; while the image is modified in place they may see
+            // different states of the same file. Candidates: the location
+            // given by any index the file had in the window, applied to the
+            // bytes the file had at any moment in the window.
+            let mut inodes: Vec<u64> = vec![];
+            let mut any_absent = false;
+            for s in snaps {
+                if s.image_ino == 0 {
+                    any_absent = true;
+                } else if !inodes.contains(&s.image_ino) {
+                    inodes.push(s.image_ino);
+                }
+            }
+            if any_absent {
+                out.push(Exp::Missing);
+            }
+            let uname = self.case().universe[n].clone();
+            for ino in inodes {
+                let images = self.run.disk.inode_contents(ino, lo, hi);
+                for &ci in &images {
+                    let idx_img = self.run.disk.content(ci);
+                    match crate::zonegen::android_locate(idx_img, &uname) {
+                        Err(()) | Ok(None) => out.push(Exp::Missing),
+                        Ok(Some((off, len))) => {
+                            for &cd in &images {
+                                let data_img = self.run.disk.content(cd);
+                                let e = match off
+                                    .checked_add(len)
+                                    .and_then(|end| data_img.get(off..end))
+                                {
+                                    None => Exp::Missing,
+                                    Some(blob) => match TimeZone::tzif(&uname, blob) {
+                                        Ok(tz) => Exp::Zone(tz),
+                                        Err(_) => Exp::Invalid,
+                                    },
+                                };
+                                out.push(e);
+                            }
+                        }
+                    }
+                }
+            }
+            return out;
+        }
         let mut inodes: Vec<u64> = vec![];
         for v in &views {
             out.push(self.expected_view(v, n));
@@ -188,35 +235,10 @@ impl<'a> Oracle<'a> {
                 }
             }
         }
-        let backend = self.case().backend;
         for ino in inodes {
             for content in self.run.disk.inode_contents(ino, lo, hi) {
-                match backend {
-                    Backend::Concatenated => {
-                        // The file is a whole image: extract the blob.
-                        let img = self.run.disk.content(content);
-                        let e = match crate::zonegen::android_parse(img) {
-                            None => Exp::Missing,
-                            Some(entries) => match entries
-                                .iter()
-                                .find(|e| e.0 == self.case().universe[n])
-                            {
-                                None | Some((_, None)) => Exp::Missing,
-                                Some((_, Some(blob))) => {
-                                    match TimeZone::tzif(&self.case().universe[n], blob) {
-                                        Ok(tz) => Exp::Zone(tz),
-                                        Err(_) => Exp::Invalid,
-                                    }
-                                }
-                            },
-                        };
-                        out.push(e);
-                    }
-                    _ => {
-                        let v = View::Bytes { content, mtime: None, ino };
-                        out.push(self.expected_view(&v, n));
-                    }
-                }
+                let v = View::Bytes { content, mtime: None, ino };
+                out.push(self.expected_view(&v, n));
             }
         }
         out
@@ -495,26 +517,32 @@ impl<'a> Oracle<'a> {
         }
         let universe = &self.case().universe;
         // Nothing outside the universe can be listed, and nothing twice.
+        let mut wit = self.witnesses(l);
+        if backend == Backend::Concatenated {
+            // Only opening the database and `available()` refresh the list.
+            wit.retain(|p| matches!(p.kind, OpKind::Open | OpKind::Available));
+        }
         for (i, nm) in names.iter().enumerate() {
-            if !universe.iter().any(|u| u == nm) {
+            // A torn or corrupted container index can hold other names; they
+            // are legitimate if the index on disk really had them.
+            let in_index = wit.iter().any(|p| {
+                let (lo, hi) = self.window(p, l);
+                self.snaps(lo, hi).iter().any(|s| s.extra_names.contains(nm))
+            });
+            if !universe.iter().any(|u| u == nm) && !in_index {
                 out.push(Violation {
                     clause: "completeness",
                     op: Some(l.id),
                     detail: format!("available() lists {nm:?}, which never existed"),
                 });
             }
-            if names[..i].contains(nm) {
+            if names[..i].contains(nm) && universe.iter().any(|u| u == nm) {
                 out.push(Violation {
                     clause: "completeness",
                     op: Some(l.id),
                     detail: format!("available() lists {nm:?} twice"),
                 });
             }
-        }
-        let mut wit = self.witnesses(l);
-        if backend == Backend::Concatenated {
-            // Only opening the database and `available()` refresh the list.
-            wit.retain(|p| matches!(p.kind, OpKind::Open | OpKind::Available));
         }
         // A refresh that finds nothing keeps the previous list (documented
         // in `refresh`). If that may have happened in a witness, only the
